@@ -299,7 +299,7 @@ func main() {
 	if *progress != "" {
 		prog, _ = os.OpenFile(*progress, os.O_CREATE|os.O_WRONLY, 0644)
 	}
-	totalOps, anomalies := 0, 0
+	totalOps, anomalies, slowHistories := 0, 0, 0
 
 	for hi := 0; hi < *nh; hi++ {
 		h := *hbase + hi
@@ -396,7 +396,13 @@ func main() {
 		select {
 		case <-done:
 		case <-time.After(5 * time.Second):
-			stuck = true
+			// a deadlock never resolves; a starved process does. Only the former is a verdict: keep waiting.
+			select {
+			case <-done:
+				slowHistories++
+			case <-time.After(60 * time.Second):
+				stuck = true
+			}
 		}
 		atomic.StoreInt32(&yieldOn, 0)
 		report := func(kind, detail string, st []string) {
@@ -427,7 +433,7 @@ func main() {
 					all = append(all, fmt.Sprintf("c%d: %s", c+1, strings.Join(o.Argv, " ")))
 				}
 			}
-			report("deadlock", "clients did not finish within 5 s; stripes held: "+strings.Join(held, ",")+"; keys "+strings.Join(keys, ",")+"; programme: "+strings.Join(all, " | "), st)
+			report("deadlock", "clients did not finish within 65 s; stripes held: "+strings.Join(held, ",")+"; keys "+strings.Join(keys, ",")+"; programme: "+strings.Join(all, " | "), st)
 			continue // goroutines are wedged; abandon this server
 		}
 		panicked := false
@@ -527,5 +533,5 @@ func main() {
 	}
 	w.Flush()
 	f.Close()
-	fmt.Printf("SUMMARY {\"histories\":%d,\"operations\":%d,\"anomalies\":%d}\n", *nh, totalOps, anomalies)
+	fmt.Printf("SUMMARY {\"histories\":%d,\"operations\":%d,\"anomalies\":%d,\"slow_histories_not_deadlocked\":%d}\n", *nh, totalOps, anomalies, slowHistories)
 }
